@@ -22,7 +22,7 @@ NSHARD = int(os.environ.get("VERIF_SHARDS", "16"))
 
 class Part(object):
     def __init__(self, name, run, strategy=None, cases=None, examples=0, exhaustive=False,
-                 shrink=True, timeout=None, note=""):
+                 shrink=True, timeout=45, note=""):
         self.name = name
         self.run = run
         self.strategy = strategy
@@ -148,7 +148,7 @@ class Acc(object):
     def __init__(self):
         self.d = {"evaluations": 0, "nontrivial_hashes": [], "classes": {}, "metrics": {},
                   "inconclusive": {}, "violations": [], "harness_errors": [], "samples": [],
-                  "checks": 0, "crash_details": {}, "per_part": {}}
+                  "checks": 0, "crash_details": {}, "per_part": {}, "inc_examples": {}}
 
     def add(self, part, spec, o, keep_samples=3):
         d = self.d
@@ -163,6 +163,9 @@ class Acc(object):
         if o.inconclusive:
             d["inconclusive"][o.inconclusive] = d["inconclusive"].get(o.inconclusive, 0) + 1
             pp["inconclusive"] += 1
+            if o.inconclusive not in d["inc_examples"]:
+                d["inc_examples"][o.inconclusive] = {"part": part.name, "spec": spec,
+                                                     "classes": {k: str(v) for k, v in o.classes.items()}}
             if getattr(o, "crash_detail", None):
                 d["crash_details"].setdefault(o.inconclusive, o.crash_detail)
         for k, v in o.classes.items():
@@ -199,6 +202,8 @@ class Acc(object):
             d["inconclusive"][k] = d["inconclusive"].get(k, 0) + v
         for k, v in e["crash_details"].items():
             d["crash_details"].setdefault(k, v)
+        for k, v in e.get("inc_examples", {}).items():
+            d["inc_examples"].setdefault(k, v)
         d["violations"] += e["violations"]
         d["harness_errors"] += e["harness_errors"]
         for s in e["samples"]:
@@ -411,6 +416,15 @@ def run_check(pid, tier, seed, only_part=None):
             if best is not None:
                 spec, detail = best["spec"], best["detail"]
         replays.append((sig, write_replay(pid, v["part"], sig, spec, detail, seed), detail))
+
+    # 3b. keep one example per inconclusive reason for diagnosis (git-ignored)
+    incd = os.path.join(env.VERIF, "replays", "inconclusive")
+    os.makedirs(incd, exist_ok=True)
+    for reason, ex in d["inc_examples"].items():
+        safe = "".join(c if c.isalnum() else "_" for c in reason)[:60]
+        with open(os.path.join(incd, "%s-%s.json" % (pid, safe)), "w") as f:
+            json.dump({"property": pid, "part": ex["part"], "signature": reason, "spec": ex["spec"],
+                       "classes": ex["classes"]}, f, indent=1, sort_keys=True, default=str)
 
     # 4. evidence
     distinct = len(set(d["nontrivial_hashes"]))
